@@ -114,9 +114,62 @@ def native_checks():
     return out
 
 
+REUSE_GRAMMAR = "start: 'x' '+' ['a-'] $ ;\n"
+REUSE_GRAMMAR_XY = "start: 'x' 'y' $ ;\n"        # (alphanumeric neighbours: the one that shows a leaked nameguard setting)
+REUSE_SETTINGS = {'ignorecase': {'ignorecase': True}, 'nows': {'whitespace': ''}, 'namechars': {'namechars': '-'}, 'noguard': {'nameguard': False}, 'parseinfo_start': {'parseinfo': True}}
+
+
+def make_reuse_settings(spec):
+    """ONE loaded generated-parser object is used for a sequence of parses: a parse of text+'!' (which FAILS) and a parse of the text itself under
+    the per-call settings of spec['first'], then a parse of the same text with NO per-call settings.  The last one must agree with the model parsed
+    with no settings (the model is stateless between parses), and with a fresh parser object: per-call settings never outlive their call."""
+    from ..harness import skel
+    from ..pegbody import Engine, GenParser, norm
+    gtext = REUSE_GRAMMAR_XY if spec['first'] == 'noguard' else REUSE_GRAMMAR
+    eng = Engine(gtext)
+    gen = GenParser(gtext)
+    first = REUSE_SETTINGS[spec['first']]
+
+    def attempt(parser, t, **kw):
+        from tatsu.exceptions import FailedParse
+        try:
+            return ('ok', norm(parser.parse(t, **kw)))
+        except FailedParse:
+            return ('fail',)
+        except Exception as e:  # noqa: BLE001
+            return ('exception', type(e).__name__ + ': ' + str(e)[:80])
+
+    def body(args):
+        t = mktext(args)
+        shared = gen.cls()
+        attempt(shared, t + '!', **first)          # fails (the grammar ends with $)
+        attempt(shared, t, **first)
+        attempt(shared, '!' + t, **first)          # and ends with a failed call
+        got = attempt(shared, t)
+        r = eng.parse(t)
+        want = ('ok', norm(r[1])) if r[0] == 'ok' else ('fail',)
+        if got[0] == 'exception':
+            return False, 'exception', got[1]
+        if got != want:
+            return False, 'reused-parser-differs-from-model', [got[0], want[0], skel(got[1]) if got[0] == 'ok' else None]
+        return True, got[0], None
+
+    n = spec['n']
+    body.explain = lambda args: f'grammar:\n{gtext}per-call settings of the earlier calls: {first}; text={mktext(args)!r}'
+    body.warm = [tuple(map(ord, w)) for w in ['', 'x+', 'X+', 'x +', 'x+a-', 'x+ ', ' x+', 'xy', 'x y', 'X Y', 'XY', 'x ya-', 'xya-', 'xy a-', 'x  y', 'x\ty', 'xY', 'x ', ' xy', 'x y ', 'x ya', 'X y'] if len(w) == n]
+    return body
+
+
 def plan(tier, seed):
     obs = []
     maxn = 3 if tier == 'quick' else 4
+    for fs in REUSE_SETTINGS:
+        for n in ((2, 3) if tier == 'quick' else (2, 3, 4, 5)):
+            if tier == 'quick' and n == 3 and fs in ('ignorecase', 'noguard'):
+                continue        # case folding on symbolic text is ~1 s per path; a leaked ignorecase / nameguard setting shows at length 2 (X+ / xy)
+            obs.append(Ob(name=f'reuse_after_{fs}_L{n}', factory='vt.props.c02:make_reuse_settings', spec={'first': fs, 'n': n, 'program': 'reuse'},
+                          params=[(f'c{i}', 0, UNI) for i in range(n)], budget={2: 120, 3: 500, 4: 1500, 5: 3000}[n], group='reuse',
+                          extra_pre='' if n < 5 else ' and '.join(f'c{i} < 128' for i in range(n))))
     core = [(n, r) for n, r in grammars.CORE if tier != 'quick' or n in CORE_QUICK]
     setts = ['default', 'noguard'] if tier == 'quick' else list(SETTINGS)
     for name, rules in core:
@@ -158,7 +211,8 @@ def plan(tier, seed):
         'programs': progs,
         'explanation': 'Translation validation of the Python back-end: for each grammar the parser source produced by the real generator is loaded and executed '
                        'symbolically side by side with the in-memory model on a text of n symbolic code points, under the same parse-time settings; they must '
-                       'agree on accept/reject, on failing with a parse error, and on the AST. Generated sources are also compiled (valid Python). Kernel: '
+                       'agree on accept/reject, on failing with a parse error, and on the AST. Generated sources are also compiled (valid Python). One loaded parser '
+                       'OBJECT reused after failed and successful calls with per-call settings must then parse like the model without settings. Kernel: '
                        'safe_name on symbolic rule names.',
         'functions_encoded': ['tatsu.ngcodegen.ngparser_gen:PythonParserGenerator.* (run concretely to produce the source)', 'generated parser module (symbolic)', 'tatsu.parsing:Parser',
                               'tatsu.contexts.decorator.rule:rule', 'tatsu.contexts.ctxlib.choice|loop|loopsep|exp', 'tatsu.contexts.context:ParseContext.option/choice/optional/group/nameset/nameadd/result/loopopt/joinopt/gather*/skip_to',
